@@ -20,20 +20,16 @@ def n_cases(tier, quick, thorough):
 
 
 # ------------------------------------------------------------------ real-code helpers
-def abs_row(s):
-    from decimal import Decimal
-
-    from xsdata.formats.converter import converter
-
-    return [s, bool(converter.test(s, [float], strict=True)), bool(converter.test(s, [Decimal], strict=True))]
-
-
-def abs_table(strings):
-    seen, out = set(), []
+def freprs(strings):
+    """`repr(float(s))` for the strings of a request that `float()` accepts: the one function of the float
+    converter the Lean model does not compute (CEnv.floatRepr)"""
+    out = {}
     for s in strings:
-        if isinstance(s, str) and s not in seen:
-            seen.add(s)
-            out.append(abs_row(s))
+        if isinstance(s, str) and s not in out:
+            try:
+                out[s] = repr(float(s))
+            except ValueError:
+                pass
     return out
 
 
@@ -84,7 +80,9 @@ HAND_STRINGS = [
     "1.5", "1.50", "1e5", "1E5", "NaN", "INF", "-INF", "inf", "nan", "Infinity", ".5", "5.", "0.1", "-0.0", "123456789012345678901.5",
     "12.5", "1E22", "2.5E-07", "12:30:00", "12:30:00Z", "12:30:00.5", "24:00:00", "25:00:00", "12:30", "2020-01-15", "2020-02-30", "2020-01-15Z",
     "2020-01-15+02:00", "2020-01-15T10:00:00", "2020-01-15T10:00:00.123Z", "2020-01-15 10:00:00", "P1D", "PT1S", "-P1Y", "P", "PT", "P1Y2M3DT4H5M6.5S",
-    " P1D ", "2020-05", "2020", "--05", "--05-12", "---12", "--13", "---32", "-2020-05", "abc", "{urn:a}b", "a:b", "007", "0x1F", "9" * 30, "-" + "9" * 30,
+    " P1D ", "1_0.5", "１２", "١.٥", "1e400", "-1e400", "0E-7", "+.5", "NaN ", "sNaN", "-Infinity", "1E+2", "1e-5", "0.000001", "1E-7",
+    "100000000000000000000", "1.0E22", "1e22", "12.0", "-0.0", "0.10", "00.5", "1.", "1e", "e1", "1 000", "1,5", "0x10", "1.7976931348623157E308", "5E-324",
+    "9999999999999999.0", "0.30000000000000004", "1E1000000", "1E-1000000", "2020-05", "2020", "--05", "--05-12", "---12", "--13", "---32", "-2020-05", "abc", "{urn:a}b", "a:b", "007", "0x1F", "9" * 30, "-" + "9" * 30,
 ]
 
 
@@ -115,10 +113,22 @@ def random_string(rng):
 def gen_test_strict(rng, tier):
     for s in HAND_STRINGS:
         for t in TYPE_NAMES:
-            yield {"t": t, "s": s, "abs": [abs_row(s)]}
-    for _ in range(n_cases(tier, 1500, 40000)):
-        s = random_string(rng)
-        yield {"t": rng.choice(TYPE_NAMES), "s": s, "abs": [abs_row(s)]}
+            yield {"t": t, "s": s, "freprs": freprs([s])}
+    kind_of = {"int": "int", "bool": "bool", "float": "float", "Decimal": "decimal", "XmlTime": "time", "XmlDate": "date",
+               "XmlDateTime": "dateTime", "XmlDuration": "duration", "XmlPeriod": "period"}
+    for i in range(n_cases(tier, 1500, 40000)):
+        t = rng.choice(TYPE_NAMES)
+        if i % 2:
+            s = random_string(rng)
+        else:  # a value of the type's own kind, sometimes padded or damaged: both answers of every test are exercised
+            s = S.canonical_value(rng, kind_of[t], rng.choice([0, 1]))
+            m = rng.random()
+            if m < 0.15:
+                s = rng.choice([" ", "\n", "\t"]) + s + rng.choice(["", " "])
+            elif m < 0.3 and s:
+                k = rng.randrange(len(s))
+                s = s[:k] + rng.choice("0:-TZ.x") + s[k + 1:]
+        yield {"t": t, "s": s, "freprs": freprs([s])}
 
 
 def impl_test_strict(a):
@@ -141,11 +151,11 @@ def gen_infer(rng, tier):
     from xsdata.models.enums import QNames
 
     for s in HAND_STRINGS:
-        yield {"qname": "x", "value": S.enc_scalar(s), "abs": [abs_row(s)]}
+        yield {"qname": "x", "value": S.enc_scalar(s), "freprs": freprs([s])}
     for v in HAND_VALUES:
-        yield {"qname": "{urn:a}x", "value": S.enc_scalar(v), "abs": []}
-    yield {"qname": QNames.XSI_TYPE, "value": S.enc_scalar("xs:int"), "abs": [abs_row("xs:int")]}
-    yield {"qname": QNames.XSI_TYPE, "value": None, "abs": []}
+        yield {"qname": "{urn:a}x", "value": S.enc_scalar(v), "freprs": {}}
+    yield {"qname": QNames.XSI_TYPE, "value": S.enc_scalar("xs:int"), "freprs": freprs(["xs:int"])}
+    yield {"qname": QNames.XSI_TYPE, "value": None, "freprs": {}}
     for _ in range(n_cases(tier, 1500, 40000)):
         r = rng.random()
         if r < 0.8:
@@ -154,7 +164,7 @@ def gen_infer(rng, tier):
             v = rng.randint(-(2**rng.randint(1, 70)), 2**rng.randint(1, 70))
         else:
             v = rng.choice([rng.uniform(-10, 10), rng.uniform(-1e39, 1e39), rng.uniform(-1e-37, 1e-37), float(rng.randint(-5, 5))])
-        yield {"qname": "x", "value": S.enc_scalar(v), "abs": [abs_row(v)] if isinstance(v, str) else []}
+        yield {"qname": "x", "value": S.enc_scalar(v), "freprs": freprs([v])}
 
 
 def dec_scalar(v):
@@ -348,13 +358,13 @@ HAND_XML = [
 
 def xml_args(trees, texts=None):
     strings = [s for t in trees for s in S.tree_strings(t)]
-    return {"docs": trees, "texts": texts or [S.to_xml(t) for t in trees], "abs": abs_table(strings)}
+    return {"docs": trees, "texts": texts or [S.to_xml(t) for t in trees], "freprs": freprs(strings)}
 
 
 def gen_map_xml(rng, tier):
     for h in HAND_XML:
         t = S.from_xml(h)
-        yield {"root": t, "text": h, "abs": abs_table(S.tree_strings(t))}
+        yield {"root": t, "text": h, "freprs": freprs(S.tree_strings(t))}
     for i in range(n_cases(tier, 250, 6000)):
         if i % 3 == 0:
             t = S.instance(rng, S.gen_xml_model(rng, hetero=0.3, nil=0.2, empty=0.2))
@@ -363,7 +373,7 @@ def gen_map_xml(rng, tier):
             t = random_tree(rng)
             text = S.to_xml(t)
         t = S.from_xml(text)  # what an independent XML reader sees in the text
-        yield {"root": t, "text": text, "abs": abs_table(S.tree_strings(t)), "regular": i % 3 == 0}
+        yield {"root": t, "text": text, "freprs": freprs(S.tree_strings(t)), "regular": i % 3 == 0}
 
 
 def impl_map_xml(a):
@@ -416,13 +426,8 @@ def gen_xml_docs(rng, tier):
 
 
 def impl_xml_docs(a):
-    from xsdata.codegen.utils import ClassUtils
-
     try:
-        classes = []
-        for t in a["texts"]:
-            classes.extend(map_xml_text(t))
-        return ok([canon_class(c) for c in ClassUtils.reduce_classes(classes)])
+        return ok([canon_class(c) for c in real_transformer(a["texts"], "xml")])
     except Exception as e:  # noqa: BLE001
         return leak(e)
 
@@ -457,10 +462,10 @@ HAND_JSON = [
 
 def gen_map_json(rng, tier):
     for h in HAND_JSON:
-        yield {"data": S.enc_json(h), "raw": h, "name": "doc", "abs": abs_table(S.json_strings(h))}
+        yield {"data": S.enc_json(h), "raw": h, "name": "doc", "freprs": freprs(S.json_strings(h))}
     for i in range(n_cases(tier, 300, 8000)):
         d = S.json_instance(rng, S.gen_json_model(rng, hetero=0.3)) if i % 2 else random_json(rng)
-        yield {"data": S.enc_json(d), "raw": d, "name": "doc", "abs": abs_table(S.json_strings(d)), "regular": bool(i % 2)}
+        yield {"data": S.enc_json(d), "raw": d, "name": "doc", "freprs": freprs(S.json_strings(d)), "regular": bool(i % 2)}
 
 
 def impl_map_json(a):
@@ -473,29 +478,44 @@ def impl_map_json(a):
 
 
 def gen_json_docs(rng, tier):
-    hand = [[{"a": 1}, {"a": None}], [{"a": "12"}, {"a": "x"}], [{"a": []}, {"a": [1.5]}], [{"a": {"b": 1}}, {"a": {"c": 2}}, {}]]
+    hand = [[{"a": 1}, {"a": None}], [{"a": "12"}, {"a": "x"}], [{"a": []}, {"a": [1.5]}], [{"a": {"b": 1}}, {"a": {"c": 2}}, {}],
+            [[{"a": 1}, {"a": 2, "b": "x"}]], [[], {"a": 1}], [[{"a": 1}, 5]], [5], ["abc"], [""], [None], [[[{"a": 1}]]], [True, {"a": 1}]]
     for docs in hand:
-        yield {"docs": [S.enc_json(d) for d in docs], "raw": docs, "name": "doc", "abs": abs_table(s for d in docs for s in S.json_strings(d))}
+        yield {"docs": [S.enc_json(d) for d in docs], "raw": docs, "name": "doc", "freprs": freprs(s for d in docs for s in S.json_strings(d))}
     for i in range(n_cases(tier, 250, 6000)):
         if i % 3 == 2:
             docs = [random_json(rng) for _ in range(rng.randint(1, 3))]
         else:
             m = S.gen_json_model(rng, hetero=0.3)
             docs = [S.json_instance(rng, m) for _ in range(rng.randint(1, 4))]
-        yield {"docs": [S.enc_json(d) for d in docs], "raw": docs, "name": "doc", "abs": abs_table(s for d in docs for s in S.json_strings(d)), "regular": i % 3 != 2}
+            if i % 5 == 0:  # a document that is an array of root objects
+                docs = [[d, S.json_instance(rng, m)] if rng.random() < 0.5 else d for d in docs]
+        yield {"docs": [S.enc_json(d) for d in docs], "raw": docs, "name": "doc", "freprs": freprs(s for d in docs for s in S.json_strings(d)), "regular": i % 3 != 2}
+
+
+def real_transformer(docs, ext, name="doc"):
+    """the real `ResourceTransformer.process_xml_documents / process_json_documents` on in-memory resources
+    (`preloaded`), up to and including `reduce_classes`"""
+    from xsdata.codegen.transformer import ResourceTransformer
+    from xsdata.models.config import GeneratorConfig
+
+    cfg = GeneratorConfig()
+    cfg.output.package = "pkg." + name
+    t = ResourceTransformer(config=cfg)
+    uris = []
+    for i, d in enumerate(docs):
+        uri = f"mem://c13/s{i}.{ext}"
+        t.preloaded[uri] = (d if ext == "xml" else json.dumps(d)).encode("utf-8")
+        uris.append(uri)
+    (t.process_xml_documents if ext == "xml" else t.process_json_documents)(uris)
+    return t.classes
 
 
 def impl_json_docs(a):
-    from xsdata.codegen.mappers import DictMapper
-    from xsdata.codegen.utils import ClassUtils
-
     try:
-        classes = []
-        for d in json.loads(json.dumps(a["raw"])):
-            classes.extend(DictMapper.map(d, a["name"], "loc"))
-        return ok([canon_class(c) for c in ClassUtils.reduce_classes(classes)])
+        return ok([canon_class(c) for c in real_transformer(a["raw"], "json", a["name"])])
     except Exception as e:  # noqa: BLE001
-        return leak(e)
+        return err(type(e).__name__)
 
 
 # ------------------------------------------------------------------ smp.reduce
@@ -652,7 +672,7 @@ def oracle_json(a):
             try:
                 with warnings.catch_warnings():
                     warnings.simplefilter("error")
-                    obj = parser.from_string(json.dumps(d), roots[0])
+                    obj = parser.from_string(json.dumps(d), list[roots[0]] if isinstance(d, list) else roots[0])
             except Exception as e:  # noqa: BLE001
                 return f"sample {i} rejected: {type(e).__name__}: {str(e)[:200]}"
             cv = constraint_violation(obj)
@@ -955,16 +975,10 @@ def json_sites(docs, name="doc"):
                     walk(x, k)
 
     for d in docs:
-        walk(d, name)
+        for item in (d if isinstance(d, list) else [d]):
+            if isinstance(item, dict):
+                walk(item, name)
     return out
-
-
-def region_json_null_array(docs):
-    for cls, keys in json_sites(docs).items():
-        for k, vals in keys.items():
-            if any(isinstance(v, list) for v in vals) and any(v is None for v in vals):
-                return f"{cls}.{k} is an array in one place and null in another"
-    return None
 
 
 def region_json_typed_string(docs):
@@ -979,7 +993,6 @@ def region_json_typed_string(docs):
 
 
 JSON_REGIONS = [
-    ("C13-json-null-for-array", region_json_null_array),
     ("C13-json-string-typed-by-lexical-form", region_json_typed_string),
 ]
 
@@ -1011,7 +1024,6 @@ WITNESS_XML = {
     "C13-field-order-greedy-merge": ["<r><x><b>1</b><c>1</c></x><x><v>1</v><b>1</b></x><x><v>1</v><c>1</c></x></r>"],
 }
 WITNESS_JSON = {
-    "C13-json-null-for-array": [{"a": [1]}, {"a": None}],
     "C13-json-string-typed-by-lexical-form": [{"a": "12"}],
 }
 HAND_OK_XML = [
@@ -1032,7 +1044,7 @@ HAND_OK_XML = [
 
 def e2e_xml_args(docs):
     trees = [S.from_xml(d) for d in docs]
-    return {"docs": docs, "trees": trees, "abs": abs_table(s for t in trees for s in S.tree_strings(t))}
+    return {"docs": docs, "trees": trees, "freprs": freprs(s for t in trees for s in S.tree_strings(t))}
 
 
 def gen_e2e_xml(rng, tier):
@@ -1040,7 +1052,7 @@ def gen_e2e_xml(rng, tier):
         yield e2e_xml_args(docs)
     for docs in WITNESS_XML.values():
         yield e2e_xml_args(docs)
-    for i in range(n_cases(tier, 260, 3000)):
+    for i in range(n_cases(tier, 260, 2000)):
         yield e2e_xml_args(clean_xml_docs(rng, hetero=0.3 if i % 6 == 5 else 0.0))
 
 
@@ -1058,24 +1070,93 @@ def impl_e2e_xml(a):
 
 
 def e2e_json_args(docs):
-    return {"docs": docs, "enc": [S.enc_json(d) for d in docs], "name": "doc", "abs": abs_table(s for d in docs for s in S.json_strings(d))}
+    return {"docs": docs, "enc": [S.enc_json(d) for d in docs], "name": "doc", "freprs": freprs(s for d in docs for s in S.json_strings(d))}
 
 
 def clean_json_docs(rng, hetero=0.0):
     m = S.gen_json_model(rng, hetero=hetero)
-    return [S.json_instance(rng, m, null_arrays=hetero > 0) for _ in range(rng.randint(1, 4))]
+    docs = [S.json_instance(rng, m, null_arrays=True) for _ in range(rng.randint(1, 4))]
+    # a sample document may also be an array of root objects (process_json_documents maps every item)
+    return [[d] + [S.json_instance(rng, m, null_arrays=True) for _ in range(rng.randint(0, 2))] if rng.random() < 0.15 else d for d in docs]
 
 
 def gen_e2e_json(rng, tier):
     yield e2e_json_args([{"a": 1, "b": "x", "c": None, "d": [], "e": [1, 2], "f": {"g": True}, "h": [{"i": 1.5}, {"i": None, "j": "k"}]}])
+    yield e2e_json_args([{"a": [1]}, {"a": None}])  # null for a key that is an array elsewhere (fixed: c13d-01)
+    yield e2e_json_args([{"a": [{"b": 1}], "t": ["x"]}, {"a": None, "t": None}, {}])
+    yield e2e_json_args([[{"a": 1}, {"a": 2, "b": "x"}], {"a": 3}])  # a document that is an array of root objects
     for docs in WITNESS_JSON.values():
         yield e2e_json_args(docs)
-    for i in range(n_cases(tier, 160, 2500)):
+    for i in range(n_cases(tier, 160, 1600)):
         yield e2e_json_args(clean_json_docs(rng, hetero=0.3 if i % 6 == 5 else 0.0))
 
 
 def impl_e2e_json(a):
     return outcome(oracle_json(a), json_region(a["docs"]))
+
+
+def gen_fields(rng, tier):
+    for docs in HAND_OK_XML:
+        yield e2e_xml_args(docs)
+    for docs in WITNESS_XML.values():
+        yield e2e_xml_args(docs)
+    for i in range(n_cases(tier, 120, 1200)):
+        yield e2e_xml_args(clean_xml_docs(rng, hetero=0.3 if i % 4 == 3 else 0.0))
+
+
+def impl_fields(a):
+    """the fields of the classes the real pipeline generates from the samples, as the dataclasses declare them"""
+    import dataclasses
+
+    from xsdata.formats.dataclass.context import XmlContext
+
+    g = CG.run_pipeline({f"s{i}.xml": t for i, t in enumerate(a["docs"])})
+    try:
+        if g.error is not None:
+            return err("GEN:" + type(g.error).__name__)
+        ctx = XmlContext()
+        out = {}
+        for cls in g.classes().values():
+            if not dataclasses.is_dataclass(cls):
+                continue
+            fields = []
+            for f in dataclasses.fields(cls):
+                md = f.metadata
+                is_list = f.default_factory is not dataclasses.MISSING
+                fields.append({
+                    "tag": md.get("type") or "SimpleType", "name": md.get("name", f.name), "list": is_list,
+                    "default": is_list or f.default is not dataclasses.MISSING,
+                    "nillable": bool(md.get("nillable", False)), "min": md.get("min_occurs"), "max": md.get("max_occurs"),
+                    "seq": md.get("sequence"),
+                })
+            out[ctx.build(cls).qname] = fields
+        return ok(out)
+    finally:
+        g.close()
+
+
+def compare_fields(mo, io, a):
+    """every non-mixed class the model reduces the samples to is generated with exactly the predicted fields"""
+    if not (isinstance(mo, dict) and "ok" in mo and isinstance(io, dict) and "ok" in io):
+        return mo == io
+    for c in mo["ok"]:
+        if c["fields"] is None:
+            continue
+        if io["ok"].get(c["qname"]) != c["fields"]:
+            return False
+    return True
+
+
+def classify_fields(a, o):
+    if not (isinstance(o, dict) and "ok" in o):
+        return str(o)
+    fs = [f for c in o["ok"].values() for f in c]
+    flags = []
+    for k, t in (("list", lambda f: f["list"]), ("seq", lambda f: f["seq"]), ("nillable", lambda f: f["nillable"]),
+                 ("optional", lambda f: f["default"] and not f["list"]), ("min", lambda f: f["min"]), ("wild", lambda f: f["tag"] == "Wildcard")):
+        if any(t(f) for f in fs):
+            flags.append(k)
+    return "+".join(flags) or "plain"
 
 
 def compare_e2e(mo, io, a):
@@ -1091,8 +1172,10 @@ def classify_e2e(a, o):
 CORRS = [
     Corr("smp.test_strict", gen_test_strict, impl_test_strict, classify=lambda a, o: f"{a['t']}:{o.get('ok')}", describe="converter.test(s,[tp],strict=True) per explicit type (float/Decimal abstract)"),
     Corr("smp.infer", gen_infer, impl_infer, classify=classify_infer, describe="RawDocumentMapper.build_attr_type on strings, JSON literals, xsi:type"),
-    Corr("smp.components", gen_components, impl_components, describe="collections.connected_components"),
-    Corr("smp.find_component", gen_find_component, impl_find_component, describe="collections.find_connected_component"),
+    Corr("smp.components", gen_components, impl_components, classify=lambda a, o: f"{len(a['lists'])} lists -> {len(o.get('ok', []))} components" if len(a["lists"]) < 4 else f"4+ lists -> {min(len(o.get('ok', [])), 3)}{'+' if len(o.get('ok', [])) > 3 else ''} components",
+         describe="collections.connected_components"),
+    Corr("smp.find_component", gen_find_component, impl_find_component, classify=lambda a, o: "absent" if o.get("ok") == -1 else "found",
+         describe="collections.find_connected_component"),
     Corr("smp.order_respected", gen_order_respected, impl_order_respected, classify=lambda a, o: str(o.get("ok")),
          describe="is the order ClassUtils.sorted_attrs derives a linear extension of every occurrence's order: real code, the Python replica behind "
                   "the region of C13-field-order-greedy-merge, and the model's `orderRespected` (hypothesis of field_order_respected_partial) agree"),
@@ -1102,6 +1185,9 @@ CORRS = [
     Corr("smp.reduce", gen_reduce, impl_reduce, classify=classify_classes, describe="ClassUtils.reduce_classes on constructed classes (also malformed)"),
     Corr("smp.xml_docs", gen_xml_docs, impl_xml_docs, classify=classify_classes, describe="process_xml_documents core: map every document, reduce_classes"),
     Corr("smp.json_docs", gen_json_docs, impl_json_docs, classify=classify_classes, describe="process_json_documents core"),
+    Corr("smp.fields", gen_fields, impl_fields, compare=compare_fields, classify=classify_fields,
+         describe="the fields of the generated dataclasses (kind, name, list, default, nillable, min/max_occurs, sequence) vs the model: "
+                  "map + reduce + CalculateAttributePaths + ProcessAttributeTypes(nillable) + ResetAttributeSequences + ResetAttributeSequenceNumbers + asdict"),
     Corr("smp.e2e_xml", gen_e2e_xml, impl_e2e_xml, compare=compare_e2e, classify=classify_e2e,
          describe="whole real pipeline + stand-in renderer on samples of a hidden regular model: strict parse and re-serialisation of every sample; the model side evaluates merged_bounds_sound on the same samples"),
     Corr("smp.e2e_json", gen_e2e_json, impl_e2e_json, compare=compare_e2e, classify=classify_e2e, describe="the same for JSON samples"),
@@ -1182,7 +1268,7 @@ def replay_json(fid):
 
 FINDINGS = {**{k: replay_xml(k) for k in WITNESS_XML}, **{k: replay_json(k) for k in WITNESS_JSON}}
 TRUSTED = [
-    "float and Decimal strict tests are abstract in the model (their answers travel with the request); int, bool, XmlTime, XmlDate, XmlDateTime, XmlDuration, XmlPeriod are computed by the model",
+    "repr(float(s)) is the one abstract function of the strict lexical tests (its answers travel with the request); float() syntax, Decimal, int, bool, XmlTime, XmlDate, XmlDateTime, XmlDuration, XmlPeriod are computed by the models",
     "lxml reads the sample text for the model side and compares infosets for the oracle",
     "jinja2/ruff absent: harness/standin_render.py transliterates the templates; ClassAnalyzer, the renderer, XmlParser/JsonParser and the serializers are exercised end to end only",
 ]
@@ -1192,14 +1278,15 @@ ASSUMPTIONS = [
     "connected_components is modelled by input/output behaviour (absorbing fold instead of the breadth-first walk)",
 ]
 LEVEL_TEXT = (
-    "Partial. Lean theorems (Props/C13.lean) about the executable model of the cores: for any XML / JSON documents the classes obtained by "
-    "ElementMapper/DictMapper.map + reduce_classes exist and admit every mapped occurrence (each attr present with bounds containing the "
-    "occurrence's, missing attrs optional; merged_bounds_sound states it in child counts); match_type picks the first live explicit type "
-    "whose strict test accepts, and int/bool values so inferred are read and written back unchanged by the binding model; connected_components is the "
-    "partition into maximal overlapping groups, independent of order. Since the repair of merge_attributes an interleaving marker of any occurrence "
-    "survives the merge (sequence_marker_kept). Three full-strength statements the code violates (union members read in fixed order, positional sequence numbers, "
-    "greedy field order) are refuted by witnesses and proved under decidable hypotheses. Tied to /repo by "
-    "correspondence of every core and by the end-to-end oracle (whole pipeline, strict parse, re-serialisation) on samples of hidden regular models; "
-    "eight defects listed as known findings, two repaired."
+    "Partial. Lean theorems (Props/C13.lean, Props/C13Interleave.lean) about the executable model of the cores: for any XML / JSON documents the classes "
+    "obtained by ElementMapper/DictMapper.map + reduce_classes exist and admit every mapped occurrence (merged_bounds_sound states it in child counts), and so do "
+    "the fields of the generated dataclasses after the ClassAnalyzer handlers (xml_fields_admit_samples: repeated child => list field, bounds never contradict the "
+    "occurrence, unused fields have defaults; the model predicts the generated fields exactly, checked field by field against the real generator); match_type picks the "
+    "first live explicit type whose strict test accepts, and values inferred as int, bool, Decimal and float are read and written back unchanged by the converter models "
+    "(only repr(float) is taken from outside); connected_components is the partition into maximal overlapping groups, independent of order; an interleaving marker of any "
+    "occurrence survives the merge (sequence_marker_kept) and a regular sequence group is written back in document order by EventGenerator.next_value (interleave_reproduced). "
+    "Three full-strength statements the code violates (union members read in fixed order, positional sequence numbers, greedy field order) are refuted by witnesses and "
+    "proved under decidable hypotheses. Tied to /repo by correspondence of every core (the real ResourceTransformer on preloaded resources) and by the end-to-end oracle "
+    "(whole pipeline, strict parse, re-serialisation) on samples of hidden regular models; seven defects listed as known findings, three repaired."
 )
-LEVEL_NOTE = "Trusted: Lean kernel, sampling correspondence, lxml, stand-in renderer; float/Decimal lexical tests abstract."
+LEVEL_NOTE = "Trusted: Lean kernel, sampling correspondence, lxml, stand-in renderer; repr(float) abstract; mixed classes outside the field model."
